@@ -208,7 +208,11 @@ def run_one(mod, case):
     except (KeyboardInterrupt, SystemExit):
         raise
     except BaseException as e:   # noqa
-        raise HarnessError(f'run_case raised {type(e).__name__}: {e}\n{traceback.format_exc()}\ncase={json.dumps(case, default=_json_default)[:2000]}')
+        try:
+            tb = traceback.format_exc()
+        except BaseException:   # noqa  (e.g. RadiDictKeyError.__getattr__ raises KeyError for __notes__)
+            tb = ''.join(traceback.format_tb(e.__traceback__))
+        raise HarnessError(f'run_case raised {type(e).__name__}: {e}\n{tb}\ncase={json.dumps(case, default=_json_default)[:2000]}') from None
     if res['digest'] is None:
         raise HarnessError('run_case returned no digest')
     return res
@@ -298,6 +302,7 @@ def run_batch(modname, tier, root, *, n_runs, budget_s, workers=None, batch=None
                 if agg.viol and time.time() - t0 > min(budget_s, 20):
                     stop_new = True
         except BaseException:
+            time.sleep(0.3)      # let a dying worker flush its traceback
             for p in list(getattr(ex, '_processes', {}).values()):
                 try:
                     p.kill()
